@@ -44,6 +44,39 @@ def edge_fact(fn, e):
     return None
 
 
+def cond_facts(fn, cond, positive, depth=0):
+    """All atomic facts implied by `cond` having the given truth value: `(A && B)` true gives the
+    facts of A and of B, `(A || B)` false gives those of !A and !B (value-context conditions such as
+    `!(A && B)` are not split into edges by the CFG builder)."""
+    c = fn.resolve(strip(cond))
+    g = 0
+    while isinstance(c, dict) and g < 20:
+        g += 1
+        if c.get("k") == "un" and c["op"] == "!":
+            positive = not positive
+            c = fn.resolve(strip(c["e"]))
+            continue
+        break
+    if not isinstance(c, dict) or depth > 6:
+        return []
+    if c.get("k") == "bin" and c["op"] in ("&&", "||"):
+        if (c["op"] == "&&") == positive:
+            return cond_facts(fn, c["l"], positive, depth + 1) + cond_facts(fn, c["r"], positive, depth + 1)
+        return []
+    f = cond_fact(fn, c, positive)
+    return [f] if f is not None else []
+
+
+def edge_facts(fn, e):
+    if e.label in ("T", "F"):
+        c = fn.branch_cond(e.src)
+        if c is None:
+            return []
+        return cond_facts(fn, c, e.label == "T")
+    f = edge_fact(fn, e)
+    return [f] if f is not None else []
+
+
 def is_zero(e):
     return is_null(e) or is_int(e, 0)
 
@@ -57,20 +90,21 @@ class Guard:
         self.pred = pred
 
     def holds(self, fn, e):
-        f = edge_fact(fn, e)
-        if f is None:
-            return False
-        try:
-            return bool(self.pred(fn, e, f))
-        except KeyError:
-            return False
+        for f in edge_facts(fn, e):
+            try:
+                if self.pred(fn, e, f):
+                    return True
+            except KeyError:
+                pass
+        return False
 
     def __repr__(self):
         return self.name
 
 
 def _status_defs_are_calls(fn, e, var, callee_ok):
-    """All definitions of `var` reaching the end of block e.src are `var = call` accepted by callee_ok."""
+    """All definitions of `var` reaching the end of block e.src are `var = call` accepted by
+    callee_ok(call node, (block, index) of the defining element)."""
     ds = fn.defs_at_end(e.src, var)
     if not ds:
         return False
@@ -80,9 +114,13 @@ def _status_defs_are_calls(fn, e, var, callee_ok):
             return False
         rhs = node.get("r") if kind == "asg" else node.get("init")
         rhs = fn.as_call(rhs) if rhs is not None else None
-        if rhs is None or not callee_ok(rhs):
+        if rhs is None or not callee_ok(rhs, (d[0], d[1])):
             return False
     return True
+
+
+def _cond_loc(fn, e):
+    return (e.src, max(0, len(fn.blocks[e.src]["elems"]) - 1))
 
 
 def g_ok(callee, argcheck=None):
@@ -97,7 +135,7 @@ def g_ok(callee, argcheck=None):
         ck = lambda c: c.get("fn") in names
 
     def full(fn):
-        return (lambda c: ck(c) and (argcheck is None or argcheck(fn, c)))
+        return (lambda c, loc: ck(c) and (argcheck is None or argcheck(fn, c, loc)))
 
     def pred(fn, e, f):
         op, l, r = f
@@ -108,7 +146,7 @@ def g_ok(callee, argcheck=None):
         if not is_zero(r):
             return False
         if fn.as_call(l) is not None:
-            return full(fn)(fn.as_call(l))
+            return full(fn)(fn.as_call(l), _cond_loc(fn, e))
         if is_var(l):
             return _status_defs_are_calls(fn, e, strip(l)["n"], full(fn))
         return False
@@ -121,7 +159,7 @@ def g_true(callee, argcheck=None):
     names = {callee} if isinstance(callee, str) else set(callee)
 
     def ck(fn):
-        return lambda c: c.get("fn") in names and (argcheck is None or argcheck(fn, c))
+        return lambda c, loc: c.get("fn") in names and (argcheck is None or argcheck(fn, c, loc))
 
     def pred(fn, e, f):
         op, l, r = f
@@ -132,7 +170,7 @@ def g_true(callee, argcheck=None):
         if not is_zero(r):
             return False
         if fn.as_call(l) is not None:
-            return ck(fn)(fn.as_call(l))
+            return ck(fn)(fn.as_call(l), _cond_loc(fn, e))
         if is_var(l):
             return _status_defs_are_calls(fn, e, strip(l)["n"], ck(fn))
         return False
@@ -144,7 +182,7 @@ def g_false(callee, argcheck=None):
     names = {callee} if isinstance(callee, str) else set(callee)
 
     def ck(fn):
-        return lambda c: c.get("fn") in names and (argcheck is None or argcheck(fn, c))
+        return lambda c, loc: c.get("fn") in names and (argcheck is None or argcheck(fn, c, loc))
 
     def pred(fn, e, f):
         op, l, r = f
@@ -155,7 +193,7 @@ def g_false(callee, argcheck=None):
         if not is_zero(r):
             return False
         if fn.as_call(l) is not None:
-            return ck(fn)(fn.as_call(l))
+            return ck(fn)(fn.as_call(l), _cond_loc(fn, e))
         if is_var(l):
             return _status_defs_are_calls(fn, e, strip(l)["n"], ck(fn))
         return False
